@@ -13,6 +13,7 @@ mod c03;
 mod c04;
 mod c05;
 mod c10;
+mod c11;
 mod c12;
 mod c13;
 
@@ -74,6 +75,7 @@ fn main() {
         "C04" => c04::run(&p, &mut rep),
         "C05" => c05::run(&p, &mut rep),
         "C10" => c10::run(&p, &mut rep),
+        "C11" => c11::run(&p, &mut rep),
         "C12" => c12::run(&p, &mut rep),
         "C13" => c13::run(&p, &mut rep),
         other => {
